@@ -394,7 +394,7 @@ package intermediate
 //@   requires corrheld: forall i in [0, len(msgRecs(message))): forall k: has(a.flowKeyRecordMap, k) ==> corrOK(a, msgRecs(message)[i], a.flowKeyRecordMap[k].Record)
 //@   requires corrmsg: forall i in [0, len(msgRecs(message))): forall j in [0, len(msgRecs(message))): i != j ==> corrOK(a, msgRecs(message)[i], msgRecs(message)[j])
 //@   // what aggregation needs: a sane configuration, incoming records with the exporter's fields, held records with the aggregated fields
-//@   requires aggcfg:  cfg(a) != nil ==> statsLens(a) && statsNamesDistinct(a)
+//@   requires aggcfg:  cfg(a) != nil ==> statsLens(a) && statsNamesDistinct(a) && thrNamesDistinct(a)
 //@   requires aggin:   cfg(a) != nil ==> (forall i in [0, len(msgRecs(message))): inFields(a, msgRecs(message)[i]))
 //@   requires aggheld: cfg(a) != nil ==> (forall k: has(a.flowKeyRecordMap, k) ==> exFields(a, a.flowKeyRecordMap[k].Record))
 //@   ensures  inv:  aggInv(a) && aggRetry(a)
@@ -414,7 +414,7 @@ package intermediate
 //@   loop 1 invariant ch4: forall i in [$i, len(msgRecs(message))): forall k: has(a.flowKeyRecordMap, k) ==> presentCF(a, msgRecs(message)[i], a.flowKeyRecordMap[k].Record)
 //@   loop 1 invariant corrmsg: forall i in [$i, len(msgRecs(message))): forall j in [$i, len(msgRecs(message))): i != j ==> corrOK(a, msgRecs(message)[i], msgRecs(message)[j])
 //@   loop 1 invariant cf: a.correlateFields == old(a.correlateFields) && cfg(a) == old(cfg(a))
-//@   loop 1 invariant aggcfg:  cfg(a) != nil ==> statsLens(a) && statsNamesDistinct(a)
+//@   loop 1 invariant aggcfg:  cfg(a) != nil ==> statsLens(a) && statsNamesDistinct(a) && thrNamesDistinct(a)
 //@   loop 1 invariant aggin:   cfg(a) != nil ==> (forall i in [$i, len(msgRecs(message))): inFields(a, msgRecs(message)[i]))
 //@   loop 1 invariant aggheld: cfg(a) != nil ==> (forall k: has(a.flowKeyRecordMap, k) ==> exFields(a, a.flowKeyRecordMap[k].Record))
 
@@ -480,7 +480,7 @@ package intermediate
 //@     && kindU8(rex, "flowEndReason") && kindStr(rex, "tcpState") && kindStr(rex, "httpVals") && allNS(a, rex)
 //@ pure aggFields(a *AggregationProcess, rin entities.Record, rex entities.Record) bool = inFields(a, rin) && exFields(a, rex)
 //@ // aggOK: what aggregateRecords needs of the configuration, an incoming record and the record held for its flow
-//@ pure aggOK(a *AggregationProcess, rin entities.Record, rex entities.Record) bool = cfg(a) != nil ==> statsLens(a) && statsNamesDistinct(a) && aggFields(a, rin, rex)
+//@ pure aggOK(a *AggregationProcess, rin entities.Record, rex entities.Record) bool = cfg(a) != nil ==> statsLens(a) && statsNamesDistinct(a) && thrNamesDistinct(a) && aggFields(a, rin, rex)
 
 //@ pure isDeltaName(n string) bool = contains(n, "Delta")
 //@ // 64-bit unsigned addition of two in-range values wraps at most once
@@ -493,6 +493,14 @@ package intermediate
 //@     u64v(recList(rex)[l]) == (isDeltaName(cfg(a).StatsElements[i]) ? wrap64(u64v(recList(rin)[j]) + old(u64v(recList(rex)[l]))) : u64v(recList(rin)[j]))
 //@ pure nodeStatKept(a *AggregationProcess, rex entities.Record, i int, l int, src bool) bool =
 //@     0 <= i && i < len(cfg(a).StatsElements) && 0 <= l && l < len(recList(rex)) && isFirst(rex, nodeName(a, i, src), l) ==> u64v(recList(rex)[l]) == old(u64v(recList(rex)[l]))
+//@ // commonStat: the common counter i (element l of the aggregated record) follows the node that reported the latest end time: a total is the maximum
+//@ // of its old value and the incoming one, a delta is copied from that node's summed delta (element ln of the aggregated record)
+//@ pure commonStat(a *AggregationProcess, rin entities.Record, rex entities.Record, i int, j int, l int, ln int, src bool) bool =
+//@     0 <= i && i < len(cfg(a).StatsElements) && 0 <= j && j < len(recList(rin)) && 0 <= l && l < len(recList(rex)) && 0 <= ln && ln < len(recList(rex))
+//@     && isFirst(rin, cfg(a).StatsElements[i], j) && isFirst(rex, cfg(a).StatsElements[i], l) && isFirst(rex, nodeName(a, i, src), ln) ==>
+//@     u64v(recList(rex)[l]) == (isDeltaName(cfg(a).StatsElements[i]) ? u64v(recList(rex)[ln]) : max(old(u64v(recList(rex)[l])), u64v(recList(rin)[j])))
+//@ pure commonKept(a *AggregationProcess, rex entities.Record, i int, l int) bool =
+//@     0 <= i && i < len(cfg(a).StatsElements) && 0 <= l && l < len(recList(rex)) && isFirst(rex, cfg(a).StatsElements[i], l) ==> u64v(recList(rex)[l]) == old(u64v(recList(rex)[l]))
 //@ // the record was skipped: no 64-bit counter of the aggregated record changed
 //@ pure allU64Kept(rex entities.Record) bool = forall l in [0, len(recList(rex))): dt(recList(rex)[l]) == Unsigned64 ==> u64v(recList(rex)[l]) == old(u64v(recList(rex)[l]))
 //@ // "increasing end times": the incoming record is later than the previous record of its node(s) (otherwise the code skips the record)
@@ -513,7 +521,9 @@ package intermediate
 //@                  u32v(recList(existingRecord)[l]) == max(old(u32v(recList(existingRecord)[l])), u32v(recList(incomingRecord)[j])))
 //@   // per reporting node, for every counter i0 (and the elements j0 / l0 that hold it): totals take the latest value, deltas are summed
 //@   // (no delta lost or double-counted), the other node's fields are untouched
-//@   given i0, j0, l0
+//@   given i0, j0, l0, lc0
+//@   // the common counters follow the reporter of the latest end time (here: exactly one reporting node per call)
+//@   ensures  common: cfg(a) != nil && err == nil && (fillSrcStats != fillDstStats) ==> commonStat(a, incomingRecord, existingRecord, i0, j0, lc0, l0, fillSrcStats) || commonKept(a, existingRecord, i0, lc0)
 //@   // either the record is merged (per-node counters as specified) or it is skipped entirely (the code skips a record whose end time is
 //@   // not later than the previous one of its node: excluded by the property's quantifier; WHEN it skips is not decided here)
 //@   ensures  srcstats: cfg(a) != nil && err == nil && fillSrcStats ==> nodeStat(a, incomingRecord, existingRecord, i0, j0, l0, true) || allU64Kept(existingRecord)
@@ -530,11 +540,15 @@ package intermediate
 //@   loop 2 invariant end:  forall j in [0, len(recList(incomingRecord))): forall l in [0, len(recList(existingRecord))): isFirst(incomingRecord, "flowEndSeconds", j) && isFirst(existingRecord, "flowEndSeconds", l) ==>
 //@                  u32v(recList(existingRecord)[l]) == max(old(u32v(recList(existingRecord)[l])), u32v(recList(incomingRecord)[j]))
 //@   loop 2 invariant nz:   flowEndSecondsDiff > 0
+//@   loop 2 invariant comdone: isLatest && (fillSrcStats != fillDstStats) && i0 < $i ==> commonStat(a, incomingRecord, existingRecord, i0, j0, lc0, l0, fillSrcStats)
+//@   loop 2 invariant comtodo: !isLatest || i0 >= $i ==> commonKept(a, existingRecord, i0, lc0)
 //@   loop 2 invariant srcdone: fillSrcStats && i0 < $i ==> nodeStat(a, incomingRecord, existingRecord, i0, j0, l0, true)
 //@   loop 2 invariant dstdone: fillDstStats && i0 < $i ==> nodeStat(a, incomingRecord, existingRecord, i0, j0, l0, false)
 //@   loop 2 invariant srctodo: !fillSrcStats || i0 >= $i ==> nodeStatKept(a, existingRecord, i0, l0, true)
 //@   loop 2 invariant dsttodo: !fillDstStats || i0 >= $i ==> nodeStatKept(a, existingRecord, i0, l0, false)
 //@   loop 3 invariant cnt:  0 <= $i && $i <= len(antreaThroughputElements) && antreaThroughputElements == cfg(a).ThroughputElements && antreaSourceThroughputElements == cfg(a).SourceThroughputElements && antreaDestinationThroughputElements == cfg(a).DestinationThroughputElements
+//@   loop 3 invariant comdone: isLatest && (fillSrcStats != fillDstStats) ==> commonStat(a, incomingRecord, existingRecord, i0, j0, lc0, l0, fillSrcStats)
+//@   loop 3 invariant comkept: !isLatest ==> commonKept(a, existingRecord, i0, lc0)
 //@   loop 3 invariant srcdone: fillSrcStats ==> nodeStat(a, incomingRecord, existingRecord, i0, j0, l0, true)
 //@   loop 3 invariant dstdone: fillDstStats ==> nodeStat(a, incomingRecord, existingRecord, i0, j0, l0, false)
 //@   loop 3 invariant srckept: !fillSrcStats ==> nodeStatKept(a, existingRecord, i0, l0, true)
